@@ -36,8 +36,9 @@ def visLine (w : Who) (db : DB) (note : Bool) : String :=
   let tt := sortStr (labels.filter (fun l => !(timeTravel w db l).isEmpty))
   let jn := sortStr ((joinChildren w db).map (fun p => p.1 ++ ">" ++ p.2) ++ (joinParent w db).map (fun p => p.1 ++ "<" ++ p.2))
   let cm := sortStr (commits w db)
+  let cc := sortStr (labels.filter (fun l => !(commitsByCid w db l).isEmpty))
   let wd := sortStr (scanAll w db 0 ++ scanAll w db 1 ++ scanAll w db 2)
-  s!"scan={csv sc} index={csv idx} byid={csv bi} tt={csv tt} join={csv jn} count={count w db 0}+{count w db 1}+ commits={csv cm} withdeleted={csv wd}" ++
+  s!"scan={csv sc} index={csv idx} byid={csv bi} tt={csv tt} join={csv jn} count={count w db 0}+{count w db 1}+ commits={csv cm} commitcid={csv cc} withdeleted={csv wd}" ++
     (if note then s!" ttcol={csv (sortStr (timeTravelCollection w db 2))}" else "")
 
 structure W where
